@@ -108,21 +108,86 @@ func c04Judge(c *core.Ctx, b, key []byte, what string, mustFail bool) {
 	if d := before.diff(viewOf(m)); d != "" {
 		c.Violate("check-mutated", "check-mutated", map[string]interface{}{"what": what, "input_hex": core.Hex(b), "diff": d})
 	}
+	// The same check made from a ForEach callback (the way a server picks the credential that belongs to the visited
+	// USERNAME/REALM): the message bytes and the key are the same, so is the verdict - as long as the window ForEach
+	// shows to its callback still contains the first MESSAGE-INTEGRITY.
+	_, mtlv, has := ref.IntegrityExpected(b, rm, key)
+	if !has {
+		return
+	}
+	first := -1
+	for k, t := range rm.TLVs {
+		if t.Off == mtlv.Off {
+			first = k
+		}
+	}
+	if first < 0 || len(rm.TLVs) > 64 {
+		return
+	}
+	pick := int(gen.HashBytes(key)%uint64(first+1)) // an attribute at or before the MAC
+	at := rm.TLVs[pick].Type
+	if at == 0x8020 {
+		at = 0x0020
+	}
+	nth := 0 // which visit of that type is attribute `pick`
+	for k := 0; k < pick; k++ {
+		kt := rm.TLVs[k].Type
+		if kt == 0x8020 {
+			kt = 0x0020
+		}
+		if kt == at {
+			nth++
+		}
+	}
+	visit, called := 0, false
+	var inner error
+	p, stack := safely(func() {
+		_ = m.ForEach(stun.AttrType(at), func(mm *stun.Message) error {
+			if visit == nth {
+				called = true
+				inner = stun.MessageIntegrity(key).Check(mm)
+			}
+			visit++
+
+			return nil
+		})
+	})
+	if p != nil {
+		reportPanic(c, "Check inside ForEach", p, stack, map[string]interface{}{"what": what, "input_hex": core.Hex(b)})
+
+		return
+	}
+	if called {
+		c.Count("checks_inside_foreach", 1)
+		if (inner == nil) != want {
+			c.Violate("check-verdict", "check-verdict:inside-ForEach", map[string]interface{}{
+				"what": what, "input_hex": core.Hex(b), "key_hex": core.Hex(key), "lib": fmt.Sprint(inner), "oracle": why, "visited_index": pick,
+			})
+		}
+	}
+	if d := before.diff(viewOf(m)); d != "" {
+		c.Violate("check-mutated", "check-mutated:inside-ForEach", map[string]interface{}{"what": what, "input_hex": core.Hex(b), "diff": d})
+	}
 }
 
 // c04Craft builds a message by hand (reference encoder) with a MESSAGE-INTEGRITY variant.
 func c04Craft(r *gen.Rand, key []byte) (wire []byte, variant string) {
 	var attrs []ref.Attr
 	nBefore := r.Intn(9)
+	maxVal := 64
+	if r.Chance(1, 80) {
+		nBefore, maxVal = 1000+r.Intn(200), 3 // more than a thousand attributes in front of the MAC
+	}
 	for i := 0; i < nBefore; i++ {
 		t := r.AttrType()
 		if t == 0x0008 {
 			t = 0x0006
 		}
-		attrs = append(attrs, ref.Attr{Type: t, Value: r.Bytes(r.ValueLen(64))})
+		attrs = append(attrs, ref.Attr{Type: t, Value: r.Bytes(r.ValueLen(maxVal))})
 	}
 	miIndex := len(attrs)
-	variants := []string{"correct", "correct", "correct", "random20", "otherkey", "trunc0", "trunc4", "trunc19", "ext21", "ext24", "bitflip", "none"}
+	variants := []string{"correct", "correct", "correct", "random20", "otherkey", "trunc0", "trunc4", "trunc19", "ext21", "ext24", "bitflip", "none",
+		"rfc3489-zero-padded-text", "length-not-rewritten", "text-includes-attr-header", "sha1-without-key"}
 	variant = variants[r.Intn(len(variants))]
 	miLen := 20
 	switch variant {
@@ -167,6 +232,41 @@ func c04Craft(r *gen.Rand, key []byte) (wire []byte, variant string) {
 		useKey = append(append([]byte(nil), key...), 0x01)
 	}
 	mac, _, _ := ref.IntegrityExpected(wire, rm, useKey)
+	// near misses: MACs that some other (older or sloppier) procedure would produce; only the RFC 5389 one is acceptable
+	alt := func(text []byte, rewrite bool) []byte {
+		t := append([]byte(nil), text...)
+		if rewrite {
+			l := tlv.Off - 4 - 20 + 24
+			t[2], t[3] = byte(l>>8), byte(l)
+		}
+
+		return t
+	}
+	var planted []byte
+	switch variant {
+	case "rfc3489-zero-padded-text": // RFC 3489 11.2.8: text padded with zeros to a multiple of 64 bytes
+		t := alt(wire[:tlv.Off-4], true)
+		if r.Bool() {
+			t = append(t, make([]byte, 64-len(t)%64)...) // always pads (a full block when already aligned)
+		} else {
+			t = append(t, make([]byte, (64-len(t)%64)%64)...)
+		}
+		planted = ref.HMACSHA1(key, t)
+	case "length-not-rewritten":
+		planted = ref.HMACSHA1(key, alt(wire[:tlv.Off-4], false))
+	case "text-includes-attr-header":
+		planted = ref.HMACSHA1(key, alt(wire[:tlv.Off], true))
+	case "sha1-without-key":
+		planted = ref.HMACSHA1(nil, alt(wire[:tlv.Off-4], true))
+	}
+	if planted != nil {
+		copy(wire[tlv.Off:], planted)
+		if bytes.Equal(planted, mac) {
+			variant = "correct"
+		}
+
+		return wire, variant
+	}
 	switch variant {
 	case "random20":
 		copy(wire[tlv.Off:], r.Bytes(20))
@@ -202,6 +302,23 @@ func c04Sign(c *core.Ctx, r *gen.Rand) (m *stun.Message, key []byte, ok bool) {
 	var mi stun.MessageIntegrity
 	if r.Chance(1, 3) {
 		u, re, p := string(r.Bytes(r.Intn(20))), string(r.Bytes(r.Intn(20))), string(r.Bytes(r.Intn(20)))
+		if r.Bool() {
+			// credentials are used byte for byte: no case folding, no Unicode normalisation, nothing trimmed or mapped away
+			odd := []string{"\u00a0", "\u00ad", "\u200d", "\ufeff", "\u3000", "\u212b", "\u00c5", "A\u030a", "\u017f", "I", "\u0130", " ", "\t", ":", "\x00", "\u2000", "\u1680", "\u034f", "\u180e"}
+			word := func() string {
+				s := ""
+				for k := 1 + r.Intn(4); k > 0; k-- {
+					if r.Bool() {
+						s += odd[r.Intn(len(odd))]
+					} else {
+						s += string(rune('a' + r.Intn(26)))
+					}
+				}
+
+				return s
+			}
+			u, re, p = word(), word(), word()
+		}
 		mi = stun.NewLongTermIntegrity(u, re, p)
 		key = ref.LongTermKey(u, re, p)
 		c.Count("long_term_keys", 1)
